@@ -223,7 +223,7 @@ def query_kind(case, q, W=None):
 # --------------------------------------------------------------------------------------
 
 def gen_cases(ctx, count, n_range, k_range, weakly_modes, want=("ok",), q_per=6, consts=0.05, depth=2,
-              outside_sig=0.1, max_tries=40, ties=0.0, deep=0.12, flat=0.06, conj=0.06, big=0.04, rekey=0.0, cost=0.08, infchain=0.12, subs=0.05):
+              outside_sig=0.1, max_tries=40, ties=0.0, deep=0.12, flat=0.06, conj=0.06, big=0.04, rekey=0.0, cost=0.08, infchain=0.12, subs=0.05, strong_only=False):
     """generate cases whose base status (by brute force classification) is in `want`"""
     rng = ctx.rng
     cases = []
@@ -328,12 +328,16 @@ def gen_cases(ctx, count, n_range, k_range, weakly_modes, want=("ok",), q_per=6,
         info = classify(case)
         if info["status"] not in want:
             continue
+        if strong_only and weakly and (info.get("inf") or 0) > 0:
+            continue    # extended mode is asked here only on strongly consistent bases (where it must coincide with strict mode)
         case["_info"] = info
         case["_hintq"] = hintq
         case["_kind"] = kind
         r = rng.random()
         if r > 0.9:
             case["inference_kwargs"] = {"_shared": True}
+        elif r > 0.8:
+            case["inference_kwargs"] = {"_own": True}
         if r < 0.08 or (kind == "infchain" and r < 0.3):
             # the answer must not depend on how the batch is evaluated or labelled: parallel evaluation, generous budgets that
             # never fire, display options
